@@ -24,8 +24,12 @@ impl DurationLiteral {
             .checked_mul(nanos_per_unit)
             .ok_or("duration out of range")?;
         // The fraction is in units of 10^-15
-        let fraction =
-            (value.femptos as u128) * nanos_per_unit / (FixedPoint::FRACTIONAL_UNITS as u128);
+        let fraction = (value.femptos as u128) * nanos_per_unit;
+        if fraction % (FixedPoint::FRACTIONAL_UNITS as u128) != 0 {
+            // A nanosecond is the smallest part a duration can hold
+            return Err("duration finer than a nanosecond");
+        }
+        let fraction = fraction / (FixedPoint::FRACTIONAL_UNITS as u128);
         let total = whole.checked_add(fraction).ok_or("duration out of range")?;
         let seconds =
             i64::try_from(total / 1_000_000_000).map_err(|e| "duration out of range")?;
